@@ -10,6 +10,7 @@ package humanize
 // unit scaling: the unit table is never empty and the rank stays inside it
 //@ func unitize
 //@   requires len(units) >= 1
+//@   assert at "buf = strconv.AppendFloat(buf, nf, 'f', precision, 64)" : rank == len(units) - 1 || (nf > 0.0 - sf && nf < sf)
 //@   loop 1 invariant 0 <= rank && rank <= len(units) - 1
 
 // digit grouping (hi): dec_digits(v) is the number of decimal digits of v (0 for v <= 0). With d
